@@ -518,6 +518,42 @@ Proof.
   reflexivity.
 Qed.
 
+(** The start-up default rule, for every history: when the blocked-hosts
+    list accepted last is empty, the server that comes up runs with the
+    client lists accepted last and the three default names as blocked hosts
+    (access/list reports exactly that); the client decision is the one of
+    the server that went down. *)
+Theorem restart_empty_blocked_hosts_defaults t c0 w0 ops :
+  boot c0 = Some w0 ->
+  let w := fst (prun t w0 ops) in
+  let l := in_force (init_default_settings c0) ops in
+  ls_hosts l = [] ->
+  exists w1,
+    restart w = Some w1 /\
+    sv_conf (w_srv w1) = mkLists (ls_allowed l) (ls_blocked l) default_blocked_hosts /\
+    handle_access_list w1 =
+      (allowed_texts l, blocked_texts l, [version_bind; id_server; hostname_bind]) /\
+    w_disk w1 = w_disk w /\
+    (forall ip id, is_blocked_client (sv_access (w_srv w1)) ip id =
+                   is_blocked_client (sv_access (w_srv w)) ip id).
+Proof.
+  intros Hb w l Hh.
+  destruct (restart_keeps_last_set t c0 w0 ops Hb) as (Hl & a & w1 & Ha & Hr & Hs & _ & _).
+  fold w l in Hl, Ha, Hr, Hs.
+  assert (Hd : init_default_settings l = mkLists (ls_allowed l) (ls_blocked l) default_blocked_hosts).
+  { unfold init_default_settings. rewrite Hh. reflexivity. }
+  exists w1. split; [exact Hr|]. rewrite Hs. cbn [sv_conf sv_access].
+  split; [exact Hd|]. split.
+  { unfold handle_access_list. rewrite Hs. cbn [sv_conf]. rewrite Hd. reflexivity. }
+  split.
+  { unfold restart in Hr. destruct (prepare (w_disk w)); [|discriminate]. injection Hr as <-. reflexivity. }
+  intros ip id.
+  pose proof (reachable_inv t c0 w0 ops Hb) as [Haw _]. fold w in Haw. rewrite Hl in Haw.
+  destruct (new_access_ctx_sides l _ Haw default_blocked_hosts) as (a' & Ha' & Hal & Hbk).
+  rewrite Hd in Ha. assert (a = a') by congruence. subst a'.
+  apply is_blocked_client_sides; assumption.
+Qed.
+
 Lemma no_hosts_no_blocked_host al bl host qt : is_blocked_host (new_access al bl []) host qt = false.
 Proof. destruct host; reflexivity. Qed.
 
